@@ -16,9 +16,9 @@ SrcAll == {"path", "fileobj", "bytesio"}
 ReadsFour == {"to_pandas", "iter", "head", "count"}
 ReadsAll == {"to_pandas", "iter", "head", "count", "filelike"}
 ColsAll == {<<>>, <<"x">>, <<"s", "x">>, <<"k">>, <<"x", "k", "s">>, <<"t", "n">>, <<"f", "t", "x">>}
-ColsFew == {<<>>, <<"s", "x">>, <<"t", "n">>, <<"x">>}      \* <<"x">>: on the dataset whose row index is x, a selection of index columns only
+ColsFew == {<<>>, <<"s", "x">>, <<"t", "n">>}
 IdxDefault == {"default"}
 IdxAll == {"default", "false", "x", "t"}
-ColsIdx == {<<>>, <<"s", "x">>, <<"f", "t", "x">>}
+ColsIdx == {<<>>, <<"s", "x">>, <<"f", "t", "x">>, <<"x">>}     \* <<"x">>: on the dataset whose row index is x, index columns only
 Export == pc = "done" => PrintT(ToJson([prog |-> prog, outcome |-> outcome, src |-> src]))
 =============================================================================
